@@ -203,7 +203,7 @@ def _ref_sel(k):
 
 
 def make_widths(n):
-    ws = sorted(set([1, 2, 3, n - 1, n, n + 1]) - {0})
+    ws = sorted(set([0, 1, 2, 3, n - 1, n, n + 1]))        # width 0 is a width too: only the value 0 (check_positive: 0 and -1) fits
     ents = []
     for w in ws:
         ents.append(Entry("int_to_bits_w%d" % w, (lambda k, w=w: k.S("x").to_bits(w)), ("x",),
@@ -259,7 +259,7 @@ def make_asserts(n):
     ents.append(Entry("assert_positive", lambda k: _assert0(k, "assert_positive"), ("x",),
                       ref=lambda k: nonneg_bits(k.v("x"), k.n),
                       dom=lambda k: fits(k.v("x"), k.n + 2), tags={"assert", "positive"}))
-    for w in sorted(set([1, 2, n - 1, n, n + 1]) - {0}):
+    for w in sorted(set([0, 1, 2, n - 1, n, n + 1])):
         ents.append(Entry("assert_positive_w%d" % w, (lambda k, w=w: _assertw(k, w)), ("x",),
                           ref=(lambda k, w=w: nonneg_bits(k.v("x"), w)),
                           dom=lambda k: fits(k.v("x"), k.n + 2), tags={"assert", "positive", "w=%d" % w}))
